@@ -852,9 +852,16 @@ impl World {
     }
     fn child_rel(&self, p: u64, name: &str) -> Option<String> {
         let base = self.paths.get(&p)?;
-        // the server maps ".." at the root to "."
-        if p == self.nums[0] && name == ".." {
+        // "." and ".." are resolved lexically (no directory symlinks in the trees), so that recorded paths stay
+        // plain and follow renames; the server maps ".." at the root to "."
+        if name == "." {
             return Some(base.clone());
+        }
+        if name == ".." {
+            return Some(match base.rfind('/') {
+                Some(i) => base[..i].to_string(),
+                None => String::new(),
+            });
         }
         Some(if base.is_empty() { name.to_string() } else { format!("{base}/{name}") })
     }
@@ -987,6 +994,10 @@ impl World {
                 if r.is_ok() {
                     // the client's own knowledge of where the numbers it holds now live
                     if let (Some(from), Some(to)) = (self.child_rel(p, &o.name), self.child_rel(p2, &o.name2)) {
+                        // whatever was at the target is replaced: the numbers recorded there no longer live at that path
+                        if from != to {
+                            self.paths.retain(|_, v| *v != to && !v.starts_with(&format!("{to}/")));
+                        }
                         for v in self.paths.values_mut() {
                             if *v == from {
                                 *v = to.clone();
